@@ -392,4 +392,32 @@ CHECKS = {
               dict(test="TestC14Schedule", quick=T(2, 15), thorough=T(4, 250, 0, 3000)),
               dict(test="TestC14Race", race=True, quick=T(2, 3), thorough=T(8, 40, 0, 3000))],
     ),
+    "C18": dict(
+        level="exploration",
+        level_text="Worlds with more than one page of everything (445-block account, 300 unreceived sends, 15 tokens, stakes, "
+                   "fusions, sentinels, pillars, projects, a configured bridge with wrap / unwrap requests; a huge world with "
+                   ">1024 entries per list) are built once per process; per case, calls to 12 ledger and 24 embedded paged / "
+                   "ranged methods get arguments from the full uint32 / uint64 range (boundary values, overflowing products), "
+                   "known / unknown / contract addresses and hashes, directly (under recover) and through an in-process "
+                   "rpc/server over HTTP (argument decoding, per-call panic containment; both answers compared). Ground truth "
+                   "comes from the independent ledger scanner and the definition readers: a successful answer equals the "
+                   "documented slice of the truth list, count = truth length, length <= advertised limit, pages beyond the end "
+                   "are empty, walking all pages yields every element once in order; an error is accepted only outside the "
+                   "advertised limits. JSON round trip of every block / momentum the api returns (same fields, same hash). Raw "
+                   "requests: mutated valid requests, batches, deep nesting, huge numbers, wrong types, invalid UTF-8, 5 MiB "
+                   "bodies: well-formed JSON-RPC response or HTTP error, sentinel request answered afterwards, no panic.",
+        level_note="Server and codec are exercised in-process over HTTP only (not websocket / IPC). World globals (bridge "
+                   "administrator key, short delays, 10-minute epochs) are values only, as in the repository's own bridge tests.",
+        technique="ground-truth (independent scanner) property testing of paged queries, round-trip testing, request fuzzing (rapid + native fuzz)",
+        rule="non-trivial = call whose range touches the end of the truth list or whose index*size / height / count >= 2^31, a "
+             "multi-page walk, an over-limit request on a list longer than the limit, a block with descendants / nonce / >64-bit "
+             "amount, or any raw request that is not a plain valid one",
+        assumptions=["a confirmed send to a contract whose receive is still pooled may or may not be listed as unreceived"],
+        death_is_violation=True,
+        jobs=[dict(test="TestC18Paging", pkg="p18", quick=T(4, 500), thorough=T(8, 6000, 0, 3000)),
+              dict(test="TestC18JsonRoundTrip", pkg="p18", quick=T(1, 1200), thorough=T(2, 10000, 0, 3000)),
+              dict(test="TestC18RawRequests", pkg="p18", quick=T(2, 500), thorough=T(4, 8000, 0, 3000)),
+              dict(test="TestC18PageCap", pkg="p18", quick=T(1, 25), thorough=T(2, 600, 0, 3000)),
+              F("FuzzC18Request", 180, "p18")],
+    ),
 }
